@@ -149,11 +149,16 @@ class Check(object):
                         if own_clauses is not None and c not in own_clauses:
                             other += 1
                             continue
-                        if (tid, c) in seen:
-                            continue
-                        seen.add((tid, c))
-                        meta = dict(index.get(tid, {}))
                         evt = ev_at.get(line, {})
+                        # events that carry the presentation they were recorded for ('pres', code points) are reported per
+                        # presentation: a known finding about one spelling must not hide another spelling of the same number
+                        pres = ''.join(chr(q) for q in evt['pres']) if isinstance(evt.get('pres'), list) else None
+                        if (tid, c, pres) in seen:
+                            continue
+                        seen.add((tid, c, pres))
+                        meta = dict(index.get(tid, {}))
+                        if pres is not None:
+                            meta['pres'] = pres
                         # a micro-trace may span several modules (doctest examples): the failing event names its own
                         if isinstance(evt.get('m'), str) and evt.get('m') and meta.get('how') == 'doctest example':
                             meta['m'] = evt['m']
